@@ -58,6 +58,9 @@ DOCS = [
     # two documents in one tree (iframe) whose root elements get DIFFERENT :root verdicts: stray text next to the inner / the outer root
     ('html.parser', '<html><body><p id="ra">a</p><iframe id="rf">stray text<html><body><p id="rb">x</p></body></html></iframe><p>z</p></body></html>'),
     ('html.parser', 'stray text<html><body><p id="rc">a</p><iframe id="rg"><html><body><p id="rd">x</p></body></html></iframe></body></html>'),
+    # several top-level elements (an html.parser fragment): which of them is "the root" must not depend on where the call was made
+    ('html.parser', '<div id="ma"><p id="mb">a</p></div><div dir="rtl" id="mc"><p id="md">b</p><input type="radio" name="g" id="me"></div>'
+     '<section id="mf"><p id="mg" lang="de">c</p><form><input type="submit" id="mh"></form></section>'),
 ]
 # edits made through the bs4 API after parsing (to the working tree and to the pristine copy alike): attribute values of the shapes the API
 # permits (lists holding non-strings, bytes, numbers) on attributes that attribute / class selectors read.  Reading them must not rewrite them.
@@ -231,6 +234,109 @@ def _validate(path):
     return res, None
 
 
+def _alone_part(chk):
+    """the first sentence of the property, exhaustively over the document and selector pools (the histories sample it): what select /
+    filter / closest say about an element in a whole-document or subtree call equals match() on that element alone"""
+    import warnings
+    warnings.simplefilter('ignore')
+    sv, bs4 = common.import_repo()
+    n = 0
+    for d, (parser, markup) in enumerate(_all_docs()):
+        soup = bs4.BeautifulSoup(markup, parser)
+        for eid, k, v in EDITS.get(d, ()):
+            t = soup.find(id=eid)
+            if t is not None:
+                t[k] = copy.deepcopy(v)
+        els = [t for t in soup.descendants if isinstance(t, bs4.Tag)]
+        pos = {id(t): i + 1 for i, t in enumerate(els)}
+        for css in SELS:
+            if css in USES_SCOPE:
+                continue
+            try:
+                alone = {pos[id(t)] for t in els if sv.match(css, t, NS)}
+            except Exception:
+                continue
+            for tg in _targets(soup, bs4):
+                try:
+                    got = {pos[id(t)] for t in sv.select(css, tg, NS)}
+                except Exception as ex:
+                    got = type(ex).__name__
+                want = {pos[id(t)] for t in tg.descendants if isinstance(t, bs4.Tag)} & alone
+                n += 1
+                if got != want:
+                    chk.violation('alone|%d|%s|%s' % (d, css, pos.get(id(tg), 0)), 'document %d: select(%r) on %s gives elements %r, asking each element alone gives %r' % (
+                        d, css, 'the document' if tg is soup else 'element %d' % pos[id(tg)], sorted(got) if isinstance(got, set) else got, sorted(want)),
+                        {'cfg': 'alone', 'group': 'select vs match alone ' + css, 'selector': css, 'doc': d})
+    chk.count(n, traces=n)
+
+
+def _mutation_part(chk):
+    """state that survives between calls: a document is queried, then CHANGED through the bs4 API (a radio button gets checked, a language
+    changes, the first submit button is removed, an element is re-parented), then queried again.  Every answer after the change must be the
+    answer a pristine parse of the changed document gives - whatever the library remembered from the earlier calls."""
+    import warnings
+    warnings.simplefilter('ignore')
+    sv, bs4 = common.import_repo()
+    docs = _all_docs()
+    n = 0
+
+    def answers(soup):
+        out = {}
+        idx = {id(t): i for i, t in enumerate(x for x in soup.descendants if isinstance(x, bs4.Tag))}
+        for css in SELS:
+            if css in USES_SCOPE:
+                continue
+            try:
+                out[css] = sorted(idx[id(t)] for t in sv.select(css, soup, NS))
+            except Exception as ex:
+                out[css] = type(ex).__name__
+        return out
+
+    def mutations(soup):
+        ms = []
+        radios = [t for t in soup.find_all('input') if (t.get('type') or '').lower() == 'radio']
+        for t in radios[:3]:
+            ms.append(('check radio', lambda t=t: t.__setitem__('checked', '') if not t.has_attr('checked') else t.__delitem__('checked')))
+        subs = [t for t in soup.find_all(['input', 'button']) if (t.get('type') or '').lower() == 'submit']
+        if subs:
+            ms.append(('remove the first submit button', lambda t=subs[0]: t.extract()))
+        langs = [t for t in soup.find_all(True) if t.has_attr('lang')]
+        if langs:
+            ms.append(('change lang', lambda t=langs[0]: t.__setitem__('lang', 'fr' if t['lang'] != 'fr' else 'de')))
+        metas = soup.find_all('meta')
+        if metas:
+            ms.append(('change the pragma', lambda t=metas[0]: t.__setitem__('content', 'fr')))
+        ps = soup.find_all('p')
+        if len(ps) >= 2:
+            ms.append(('move a paragraph', lambda a=ps[0], b=ps[-1]: b.append(a.extract())))
+        return ms
+    for d, (parser, markup) in enumerate(docs):
+        if parser == 'html5lib':
+            continue            # (re-parsing html5lib output is not the identity on these documents)
+        probe = bs4.BeautifulSoup(markup, parser)
+        for mi in range(len(mutations(probe))):
+            soup = bs4.BeautifulSoup(markup, parser)
+            answers(soup)                                   # whatever can be remembered is remembered now
+            name, fn = mutations(soup)[mi]
+            fn()
+            after = answers(soup)
+            try:
+                ser = soup.decode()
+            except Exception:
+                continue
+            fresh = bs4.BeautifulSoup(ser, parser)
+            if [getattr(t, 'name', None) for t in fresh.descendants] != [getattr(t, 'name', None) for t in soup.descendants]:
+                continue            # the serialisation does not re-parse to the same shape (parser repairs): no reference
+            want = answers(fresh)
+            n += len(SELS)
+            for css in after:
+                if after[css] != want[css]:
+                    chk.violation('mutation|%d|%s|%s' % (d, name, css), 'after "%s" on document %d, select(%r) = %r but a pristine parse of the changed document gives %r: '
+                                  'something remembered from the calls before the change' % (name, d, css, after[css], want[css]),
+                                  {'cfg': 'mutation', 'group': 'stale after ' + name, 'selector': css, 'doc': d})
+    chk.count(n, traces=n)
+
+
 def main(tier):
     chk = common.Check('C04', tier)
     chk.assumptions += ['observations are compared through abstract node positions of each document; a pristine deepcopy gives the reference rows',
@@ -323,4 +429,6 @@ def main(tier):
         for f in os.listdir(tmpd):
             os.remove(os.path.join(tmpd, f))
         os.rmdir(tmpd)
+    _alone_part(chk)
+    _mutation_part(chk)
     return chk.finish()
